@@ -357,6 +357,93 @@ func runC12(cfg Config, r *Result) {
 		ops := genC12Ops(cfg.Rng, 1+cfg.Rng.Intn(maxLen), 0, false, sh, lit)
 		c12Check(lit, ops, cfg.Rng.Int63(), model, r)
 	}
+	// deep equality of maps holding shared / copied / different composite values, through the evaluator model
+	sem := startSem(r)
+	if sem == nil {
+		return
+	}
+	defer sem.Close()
+	r.Rule += "; deep-equality programs (maps of arrays / maps of maps with shared, copied and different inner cells, all == / != pairs in both directions, before and after an update through an alias) compared with the evaluator model"
+	for i := 0; i < cfg.N(250, 5000); i++ {
+		semCase(sem, r, c12DeepEq(cfg.Rng), SemOpts{StopAt: -1, YieldBudget: 50000}, true, "deepeq:")
+	}
+}
+
+// c12DeepEq builds two (or three) maps whose values are arrays / maps, some of them THE SAME cell in both maps
+// (composites are shared), some structurally equal copies, some different, with different insertion orders and key
+// sets, and prints every equality in both directions, before and after an update through an alias. "Map equality
+// ignores order and compares values deeply": decided by the evaluator model (coq/Sem.v, C01's equals theorems).
+func c12DeepEq(rng *rand.Rand) string {
+	var b strings.Builder
+	w := func(f string, a ...any) { fmt.Fprintf(&b, f+"\n", a...) }
+	arr := rng.Intn(2) == 0
+	lits := []string{"[1 2]", "[1 2]", "[3]", "[1 2 3]"}
+	if !arr {
+		lits = []string{"{y:1}", "{y:1}", "{y:2}", "{y:1 x:0}"}
+	}
+	for i, l := range lits {
+		w("in%d := %s", i, l)
+	}
+	keys := []string{"a", "b", "c", "k"}
+	val := func() string {
+		if rng.Intn(2) == 0 {
+			return fmt.Sprintf("in%d", rng.Intn(len(lits))) // shared cell
+		}
+		return lits[rng.Intn(len(lits))] // fresh cell
+	}
+	names := []string{"p", "q", "r"}[:2+rng.Intn(2)]
+	base := map[string]string{}
+	for _, k := range keys[:2+rng.Intn(3)] {
+		base[k] = val()
+	}
+	for _, n := range names {
+		ks := append([]string(nil), keys...)
+		rng.Shuffle(len(ks), func(i, j int) { ks[i], ks[j] = ks[j], ks[i] })
+		var pairs []string
+		for _, k := range ks {
+			v, ok := base[k]
+			if !ok {
+				continue
+			}
+			switch rng.Intn(6) {
+			case 0:
+				v = val() // possibly different value
+			case 1:
+				continue // key missing
+			}
+			pairs = append(pairs, k+":"+v)
+		}
+		if len(pairs) == 0 {
+			pairs = append(pairs, "a:"+val())
+		}
+		w("%s := {%s}", n, strings.Join(pairs, " "))
+		if rng.Intn(3) == 0 { // build part of it by operations
+			k := keys[rng.Intn(len(keys))]
+			w("%s.%s = %s", n, k, val())
+			if rng.Intn(2) == 0 {
+				w("del %s %q", n, keys[rng.Intn(len(keys))])
+			}
+		}
+	}
+	cmp := func() {
+		for i, x := range names {
+			for j, y := range names {
+				if i != j {
+					w("print %q (%s == %s) (%s != %s) ([%s] == [%s])", x+y, x, y, x, y, x, y)
+				}
+			}
+		}
+		w("print %s", strings.Join(names, " "))
+	}
+	cmp()
+	if arr {
+		w("in0[0] = 9")
+	} else {
+		w("in0.y = 9")
+	}
+	cmp()
+	w("print in0 in1 in2 in3")
+	return b.String()
 }
 
 type c12Case struct {
